@@ -126,58 +126,143 @@ def find_cmp(b):
 
 
 def table_update(R, cfg, b, old_tok, new_tok):
-    cmps = find_cmp(b)
-    if len(cmps) != 1 or cmps[0].callee.name not in ('gt', 'ge', 'lt', 'le') or cmps[0].callee.self_ty != 'entry::ReloadId':
-        R.unrecognised(cfg, b.path, 'exactly one PartialOrd comparison of ReloadId expected, found %s' % cmps, b.loc())
-        return
-    c = cmps[0]
-    a0, a1 = b.access_path(c.args[0]), b.access_path(c.args[1])
-    rn, ro = _norm(new_tok + ['&']), _norm(old_tok + ['&'])
-    if (a0, a1) == (rn, ro):
-        swapped = False
-    elif (a0, a1) == (ro, rn):
-        swapped = True
-    else:
-        R.bad(cfg, b.path, 'comparison-operands', 'the comparison must relate the offered id and the stored id; operands are %s, %s' % (a0, a1), c.loc())
-        return
-    paths = enumerate_paths(b)
-    if paths is None:
-        R.unrecognised(cfg, b.path, 'too many paths', b.loc())
-        return
-    # locate the switch controlled by the comparison
-    sw = [bb for bb, t in b.terms() if t['k'] == 'switch' and ('call', c.bb) in b.origins(t['discr'])]
-    if len(sw) != 1:
-        R.unrecognised(cfg, b.path, 'one switch on the comparison result expected', b.loc())
-        return
+    """ReloadId::update(&mut self, new) decided by abstract execution over the three orderings of (new, old): the ids are
+    the symbols `old` / `new`, comparisons and Ord::max / Ord::min on them are evaluated from the ordering, every
+    branch must then be decided, and the function must end with  *self = max(old, new)  and  return new > old.
+    Any other operation on the ids is not understood (fail-closed)."""
+    def sym_cmp(name, x, y, rel):
+        # truth of `x <name> y`; x, y in {'old', 'new'}
+        if x == y:
+            r = '='
+        elif (x, y) == ('new', 'old'):
+            r = rel
+        else:
+            r = {'<': '>', '=': '=', '>': '<'}[rel]
+        return {'gt': r == '>', 'ge': r in ('>', '='), 'lt': r == '<', 'le': r in ('<', '='), 'eq': r == '=', 'ne': r != '='}[name]
+
+    def bigger(x, y, rel, want_max):
+        if x == y:
+            return x
+        r = rel if (x, y) == ('new', 'old') else {'<': '>', '=': '=', '>': '<'}[rel]
+        if r == '=':
+            return 'same'          # equal ids: either is the same number
+        first_bigger = (r == '>')
+        return x if first_bigger == want_max else y
+
+    cmps_seen = []
     for rel in RELS:
-        truth = cmp_eval(c.callee.name, swapped, rel)
-        sel = []
-        for p in paths:
-            lab = p.decision_at(sw[0])
-            if lab is None:
-                continue
-            taken_true = (lab != 'sw:0')
-            if taken_true == truth:
-                sel.append(p)
-        if len(sel) != 1 or sel[0].end != 'return':
-            R.unrecognised(cfg, b.path, 'path for outcome %s' % rel, b.loc())
-            continue
-        p = sel[0]
-        stores = p.stores_through(1)
-        stored = 'old'
-        okshape = True
-        for bb, j, s in stores:
-            if [e for e in s['place']['p']] == ['deref'] and s['rv']['k'] == 'use' and b.access_path(s['rv']['op']) == new_tok:
-                stored = 'new'
+        env = {}        # local -> 'old' | 'new' | 'same' | True | False | ('ref', sym)
+        mem = 'old'     # what *self holds
+        bb, steps, verdict = 0, 0, None
+
+        def val(op):
+            if op['k'] == 'const':
+                return {'true': True, 'false': False}.get(op.get('text'))
+            if op['k'] not in ('copy', 'move'):
+                return None
+            pl = op['place']
+            l, pr = pl['l'], pl['p']
+            if l == 1 and pr == ['deref']:
+                return mem
+            if l == 2 and not pr:
+                return 'new'
+            v = env.get(l)
+            if isinstance(v, tuple) and v[0] == 'ref' and pr == ['deref']:
+                return mem if v[1] == 'self' else v[1]
+            if not pr:
+                return v
+            return None
+        while steps < 200:
+            steps += 1
+            blk = b.blocks[bb]
+            for st in blk['stmts']:
+                if st['k'] != 'assign':
+                    continue
+                pl, rv = st['place'], st['rv']
+                v = None
+                if rv['k'] == 'use':
+                    v = val(rv['op'])
+                elif rv['k'] == 'ref':
+                    rp = rv['place']
+                    if rp['l'] == 1 and rp['p'] == ['deref']:
+                        v = ('ref', 'self')
+                    elif rp['l'] == 2 and not rp['p']:
+                        v = ('ref', 'new')
+                    elif not rp['p'] and env.get(rp['l']) in ('old', 'new', 'same'):
+                        v = ('ref', env[rp['l']])
+                    elif rp['p'] == ['deref'] and isinstance(env.get(rp['l']), tuple):
+                        v = env[rp['l']]
+                elif rv['k'] == 'unop' and str(rv.get('op', '')).lower().startswith('not'):
+                    x = val(rv['a'])
+                    v = (not x) if isinstance(x, bool) else None
+                if pl['l'] == 1 and pl['p'] == ['deref']:
+                    if v not in ('old', 'new', 'same'):
+                        verdict = 'a value that is neither the stored nor the offered id is stored'
+                        break
+                    mem = v
+                elif not pl['p']:
+                    env[pl['l']] = v
+            if verdict:
+                break
+            t = blk['term']
+            if t['k'] == 'goto':
+                bb = t['target']
+            elif t['k'] == 'switch':
+                x = val(t['discr'])
+                if not isinstance(x, bool):
+                    verdict = 'a branch does not depend on the order of the two ids only'
+                    break
+                bb = t.get('folded', None) if 'folded' in t else None
+                if bb is None:
+                    tg = t['otherwise']
+                    for v_, d_ in t['targets']:
+                        if str(v_) == ('1' if x else '0'):
+                            tg = d_
+                    bb = tg
+            elif t['k'] == 'call':
+                fn = (t['func'].get('fn') or {}) if t['func'].get('k') == 'const' else {}
+                name, tr = fn.get('name'), fn.get('trait')
+                a = [val(x) for x in t['args']]
+                a = [x[1] if isinstance(x, tuple) else x for x in a]
+                a = [mem if x == 'self' else x for x in a]
+                r = None
+                if tr in ('std::cmp::PartialOrd', 'std::cmp::PartialEq') and name in ('gt', 'ge', 'lt', 'le', 'eq', 'ne') and len(a) == 2 \
+                        and all(x in ('old', 'new', 'same') for x in a):
+                    x0, x1 = [('old' if x == 'same' else x) for x in a]
+                    r = sym_cmp(name, x0, x1, rel if 'same' not in a else '=')
+                    cmps_seen.append(name)
+                elif tr == 'std::cmp::Ord' and name in ('max', 'min') and len(a) == 2 and all(x in ('old', 'new', 'same') for x in a):
+                    r = bigger(a[0] if a[0] != 'same' else 'old', a[1] if a[1] != 'same' else 'old', rel, name == 'max')
+                elif fn.get('def', '').startswith('core::panicking') or t.get('target') is None:
+                    verdict = 'a panic is reachable'
+                    break
+                else:
+                    verdict = 'operation `%s` on the ids is not understood' % (t['func'].get('text') or '?')
+                    break
+                if not t['dest']['p']:
+                    env[t['dest']['l']] = r
+                elif t['dest']['l'] == 1 and t['dest']['p'] == ['deref']:
+                    mem = r
+                bb = t['target']
+            elif t['k'] == 'assert':
+                bb = t['target']
+            elif t['k'] == 'return':
+                break
             else:
-                okshape = False
-        ret = ret_value(b, p, c, truth)
-        want_stored = {'<': ('old',), '=': ('old', 'new'), '>': ('new',)}[rel]
+                verdict = 'unexpected terminator %s' % t['k']
+                break
+        ret = env.get(0)
+        want_stored = {'<': ('old', 'same'), '=': ('old', 'new', 'same'), '>': ('new',)}[rel]
+        if rel == '<':
+            want_stored = ('old',)
         want_ret = (rel == '>')
-        ok = okshape and stored in want_stored and ret == want_ret
+        ok = verdict is None and mem in want_stored and ret is want_ret
+        if verdict is not None and 'not understood' in verdict:
+            R.unrecognised(cfg, b.path, 'abstract execution for new%sold: %s' % (rel, verdict), b.loc())
+            continue
         R.check(ok, cfg, b.path, 'row new%sold' % rel,
-                'for new%sold: stored=%s (want %s), returned=%s (want %s)' % (rel, stored, '/'.join(want_stored), ret, want_ret),
-                c.loc(), row={'rel': rel, 'cmp': c.callee.name, 'swapped': swapped, 'stored': stored, 'returned': ret})
+                'for new%sold: stored=%s (want %s), returned=%s (want %s)%s' % (rel, mem, '/'.join(want_stored), ret, want_ret, '; ' + verdict if verdict else ''),
+                b.loc(), row={'rel': rel, 'stored': mem, 'returned': ret})
 
 
 def ret_value(b, p, c, truth):
